@@ -112,7 +112,13 @@ pub fn templates(addr: u32) -> Templates {
 
 /// df = 17: ADS-B; df = 18: TIS-B / ADS-R carrier (control field 2) of the same position messages
 pub fn templates_on(addr: u32, df: u8) -> Templates {
-    let (a, s) = (me_bds05(11, 0, 0, ac12_q(10000), 0, 0, 0, 0), me_bds06(7, 20, 1, 10, 0, 0, 0, 0));
+    templates_alt(addr, df, 10000)
+}
+
+/// `alt_ft`: barometric altitude carried by the airborne reports (decoders treat low aircraft differently: they are
+/// near an airport)
+pub fn templates_alt(addr: u32, df: u8, alt_ft: i32) -> Templates {
+    let (a, s) = (me_bds05(11, 0, 0, ac12_q(alt_ft), 0, 0, 0, 0), me_bds06(7, 20, 1, 10, 0, 0, 0, 0));
     let air = Message::try_from(if df == 17 { df17(5, addr, &a, 0) } else { df18(2, addr, &a, 0) }.as_slice()).expect("airborne template");
     let sfc = Message::try_from(if df == 17 { df17(5, addr, &s, 0) } else { df18(2, addr, &s, 0) }.as_slice()).expect("surface template");
     Templates { air, sfc }
@@ -331,7 +337,7 @@ pub fn catalogue(thorough: bool) -> Vec<Traj> {
 /// state is reached at this trajectory's speed
 pub fn gaps(tr: &Traj, thorough: bool) -> Vec<f64> {
     // negative gaps: neighbouring reports delivered in swapped order (after losses the two may be far apart in time)
-    let mut g: Vec<f64> = if thorough { vec![-0.3, 0.0, 0.4, 5.0, 9.9, 10.0, 10.1, 30.0, 179.9, 180.0, 180.1, 600.0, 86_400.0, -5.0, -30.0, -200.0] } else { vec![-0.3, 0.0, 0.4, 9.9, 10.1, 30.0, 179.9, 180.1, 600.0, -30.0] };
+    let mut g: Vec<f64> = if thorough { vec![-0.3, 0.0, 0.4, 5.0, 9.9, 10.0, 10.1, 30.0, 179.9, 180.0, 180.1, 600.0, 86_400.0, 86_400.4, 172_805.0, 604_800.4, -5.0, -30.0, -200.0] } else { vec![-0.3, 0.0, 0.4, 9.9, 10.1, 30.0, 179.9, 180.1, 600.0, 86_400.4, -30.0] };
     if tr.kt > 0.0 {
         let h = tr.heading.to_radians();
         let vlat = (tr.kt * h.cos()).abs() / 3600.0 / NM_PER_DEG; // deg/s
@@ -540,6 +546,12 @@ pub fn run(ctx: &Ctx, rep: &Report) {
     rep.part("single aircraft (DF17; DF18 and DF17/DF18 alternating on a sub-catalogue; periodic long flights)", total.load(Ordering::Relaxed), json!({"trajectories": cat.len(), "depth": depth, "reports": steps_total.load(Ordering::Relaxed), "pruned_out_of_range": pruned.load(Ordering::Relaxed)}));
     // two aircraft: all merge orders of two 3-report sequences
     let sub: Vec<&Traj> = cat.iter().filter(|t| t.reference_nm != Some(40.0)).step_by((cat.len() / if thorough { 24 } else { 10 }).max(1)).collect();
+    let mut sub = sub;
+    if !sub.iter().any(|t| matches!(t.phase, Phase::Surface)) {
+        if let Some(t) = cat.iter().find(|t| matches!(t.phase, Phase::Surface) && t.reference_nm == Some(0.0) && t.kt > 0.0) {
+            sub.push(t);
+        }
+    }
     let pair_total = AtomicU64::new(0);
     // 4000 s: longer than any retention a decoder may apply to silent aircraft
     let small_gaps = [0.0, 0.4, 9.9, 30.0, 4000.0];
@@ -566,15 +578,17 @@ pub fn run(ctx: &Ctx, rep: &Report) {
         let (ta, tb) = (sub[ia], sub[ib]);
         // the receiver reference is shared: use aircraft X's
         let reference = ta.reference();
-        let (tpa, tpb) = (templates(0x4840d6), templates(0x4840d7));
+        let (tpa_high, tpa_low, tpb) = (templates(0x4840d6), templates_alt(0x4840d6, 17, 500), templates(0x4840d7));
         let mut n = 0u64;
         for (si, sa) in seqs.iter().enumerate() {
+          // the first aircraft flies at 10,000 ft or at 500 ft (every other sequence)
+          let tpa = if si % 2 == 1 { &tpa_low } else { &tpa_high };
           // the second aircraft is first heard at the same time, or 4000.2 s later (between two reports of the first)
           for b_offset in [0.0, 4000.2] {
             let mut sb = seqs[(si * 7 + 3) % seqs.len()].clone();
             sb[0].dt = b_offset;
             let sb = &sb;
-            let (Some(ra), Some(rb)) = (build(ta, &tpa, sa), build(tb, &tpb, sb)) else { continue };
+            let (Some(ra), Some(rb)) = (build(ta, tpa, sa), build(tb, &tpb, sb)) else { continue };
             let solo_a = run_decoder(&ra.iter().collect::<Vec<_>>(), reference);
             let solo_b = run_decoder(&rb.iter().collect::<Vec<_>>(), reference);
             // bystanders: 0, 2 or 7 other aircraft heard (and fixed) before, only in the interleaved run
